@@ -104,6 +104,14 @@ T.append(tree('D13 nested optional', cmd('app', 'root', extra=[grp('Application 
     cmd('other', 'exec', extra=[grp('Other', [opt('o', 'oh')])], cmds=[
         cmd('leaf', 'exec', extra=[grp('Leaf', [opt('l', 'ell')])])])])))
 
+# D14 completion: value completers on options and positionals, hidden items, optional sub-commands
+T.append(tree('D14 completion', cmd('app', 'root', subOpt=True, extra=[grp('Application Options', [
+    opt('v', 'verbose'), opt('n', 'name', 'scalar', 'cc'), opt('f', 'file', 'slice', 'cc'), opt('p', 'plain', 'scalar', 'string'),
+    opt('', 'hid', 'scalar', 'string', hidden=True), opt('x', '', 'flag'), opt('o', 'opt', 'scalar', 'cc', optional=True, optvals=['dflt'])])], cmds=[
+    cmd('add', 'exec', aliases=['a'], extra=[grp('Add', [opt('', 'force'), opt('n', 'note', 'scalar', 'string')])], args=[{'name': 'what', 'vtype': 'cc'}]),
+    cmd('grp', 'exec', subOpt=True, extra=[grp('Grp', [opt('g', 'gee')])], cmds=[cmd('sub', 'exec', extra=[grp('Sub', [opt('', 'subopt')])])]),
+    cmd('secret', 'exec', hidden=True, extra=[grp('Secret', [])])])))
+
 with open('argparse.ndjson', 'w') as f:
     for i, t in enumerate(T, 1):
         t['id'] = i
